@@ -10,6 +10,7 @@ CONSTANTS
   CodeDen = {}
   Dims = 2
   Kinds <- KindsAll
+  HalfLimits = FALSE
   Uneven = "any"
 VIEW View
 ACTION_CONSTRAINT Emit
